@@ -3362,6 +3362,9 @@ impl GraphEngine {
         // Validate constraints before creating
         self.validate_edge_constraints(&edge_type, &properties, None)?;
 
+        #[cfg(feature = "neumann_verif")]
+        verif_rmw_window("create_edge: endpoints checked");
+
         let id = self.edge_counter.fetch_add(1, Ordering::SeqCst) + 1;
 
         let mut tensor = TensorData::new();
